@@ -154,7 +154,14 @@ func (nm LNumber) Format(f fmt.State, c rune) {
 	case 'c':
 		// one byte, like C's (unsigned char) conversion; not the UTF-8 encoding of a code point
 		LString(string([]byte{byte(int64(nm))})).Format(f, 's')
-	case 'b', 'd', 'o', 'x', 'X', 'U':
+	case 'o', 'x', 'X':
+		// unsigned conversions: values in [2^63, 2^64) do not fit an int64
+		if nm >= 1<<63 {
+			defaultFormat(uint64(nm), f, c)
+		} else {
+			defaultFormat(int64(nm), f, c)
+		}
+	case 'b', 'd', 'U':
 		defaultFormat(int64(nm), f, c)
 	case 'e', 'E', 'f', 'F', 'g', 'G':
 		defaultFormat(float64(nm), f, c)
